@@ -9,7 +9,8 @@
     checks.  The proof content is that the two parameters of the main loop that depend on the
     absolute source length - budget and initial detector state - are never decisive.) *)
 From Coq Require Import NArith List Bool.
-From SasLexer Require Import Gen.TokenType Gen.ErrorKind Gen.Channel Model.Base Model.Core Model.Lexer3 Proofs.Bom.
+From SasLexer Require Import Gen.TokenType Gen.ErrorKind Gen.Channel Model.Base Model.Core Model.Lexer3 Spec.RefLex Proofs.Bom
+     Proofs.OcBase Proofs.OcWhole Proofs.OcAll.
 Import ListNotations.
 Open Scope N_scope.
 
@@ -33,6 +34,27 @@ Proof.
   repeat split; assumption.
 Qed.
 Print Assumptions C17_bom_transparent.
+
+(** on macro-free text (release profile) the premises hold by the simulation theorem of C11, so the
+    statement is unconditional there *)
+Theorem C17_bom_transparent_macro_free : forall (msep : bool) (src : list char),
+  match src with c :: _ => (c =? BOM) = false | [] => True end ->
+  macro_free src = true ->
+  let cfg := mkCfg false msep in
+  lr_outcome (lex cfg (BOM :: src)) = None /\
+  b_toks (lr_buffer (lex cfg (BOM :: src))) = map (shift_tok 3 1) (b_toks (lr_buffer (lex cfg src))) /\
+  b_lines (lr_buffer (lex cfg (BOM :: src))) = map (shift_line 3 1) (b_lines (lr_buffer (lex cfg src))) /\
+  b_lit (lr_buffer (lex cfg (BOM :: src))) = b_lit (lr_buffer (lex cfg src)) /\
+  lr_errors (lex cfg (BOM :: src)) = map (shift_err 3 1) (lr_errors (lex cfg src)).
+Proof.
+  intros msep src Hb Hmf cfg.
+  assert (Hbody : body_of src = src).
+  { unfold body_of, split_bom. destruct src as [|c r]; [reflexivity|]. rewrite Hb. reflexivity. }
+  pose proof (lex_is_reflex_macro_free msep src ltac:(rewrite Hbody; exact Hmf)) as G. cbv zeta in G.
+  destruct (reflex src) as [[T E] lit]. destruct G as (G1 & _ & _ & _ & _ & G6 & G7 & _).
+  exact (C17_bom_transparent cfg src Hb G1 G6 G7).
+Qed.
+Print Assumptions C17_bom_transparent_macro_free.
 
 (** shifting leaves types, channels, line indexes, payloads, error kinds, lines and columns alone *)
 Lemma C17_shift_fields : forall t e,
